@@ -32,20 +32,21 @@ theorem condFalse_eval (hs : SimpSound s) {c : B} (hc : c.WF) : (s.b (.not (s.b 
 
 /-- a successor built by `Path.append` on a copy of `st0` is related to the frames `st0` (repositioned) is -/
 theorem R_addCond (hs : SimpSound s) {st0 X : SState} {c1 : B} (hc1 : c1.WF) (hR : R I env code p st0 f)
-    (hpc : X.pc = st0.pc) (hstk : X.stack = st0.stack) (hsub : X.subst = st0.subst) (hp : X.path = st0.path) :
+    (hpc : X.pc = st0.pc) (hstk : X.stack = st0.stack) (hsub : X.subst = st0.subst) (hp : X.path = st0.path)
+    (hm : X.mem = st0.mem) :
     R I env code p (addCond s X c1) f :=
-  hR.congr (by rw [addCond_pc, hpc]) (by rw [addCond_stack, hstk])
+  hR.congr (by rw [addCond_pc, hpc]) (by rw [addCond_stack, hstk]) (by rw [addCond_mem, hm])
     (addCond_substOk hs hc1 (hR.subst.same hsub hp))
 
 /-- **step_sound.** -/
 theorem step_sound (hs : SimpSound s) (hI : I.Std) (hR : R I env code p st f) (hsat : Sat I st.path)
-    (hl : f.stack.length ≤ 1024) :
+    (hl : f.stack.length ≤ 1024) (hmem : cfg.maxMem + 32 ≤ p.memLimit) :
     (∀ st' ∈ (step s o cfg env code st).next, Sat I st'.path →
         ∃ f', CReach p w f f' ∧ R I env code p st' f') ∧
     (∀ e ∈ (step s o cfg env code st).ends, e.tag = .normal → ∀ h, e.out = .halt h →
-        Evm.step p w f = .halt w h) := by
-  rcases step_corr (w := w) (o := o) (cfg := cfg) hs hI hR hsat hl with
-    ⟨st1, f1, e, _, _, hreach, hR1⟩ | ⟨st0, h0, e, hp, hstep⟩ | ⟨st0, r, e, hp⟩ |
+        Evm.step p w f = .halt w (haltWith h (e.data.map (·.eval I)))) := by
+  rcases step_corr (w := w) (o := o) (cfg := cfg) hs hI hR hsat hl hmem with
+    ⟨st1, f1, e, _, _, hreach, hR1⟩ | ⟨st0, h0, data, e, hp, hstep⟩ | ⟨e0, e, hp, hnc⟩ |
     ⟨st0, target, c, e, hc, hp, _, htrue, hbad, hfalse⟩
   · rw [e]
     refine ⟨?_, ?_⟩
@@ -63,10 +64,13 @@ theorem step_sound (hs : SimpSound s) (hI : I.Std) (hR : R I env code p st f) (h
       subst he; exact hstep
   · rw [e]
     refine ⟨?_, ?_⟩
-    · intro st' hm; simp [stuckOut] at hm
-    · intro e' hm _ h he
-      simp only [stuckOut, List.mem_singleton] at hm
-      subst hm; cases he
+    · intro st' hm; simp at hm
+    · intro e' hm hn h he
+      simp only [List.mem_singleton] at hm
+      subst hm
+      rcases hnc with ⟨r, hr⟩ | ht
+      · rw [hr] at he; cases he
+      · exact absurd hn ht
   · rw [e]
     have hwfT : (s.b c).WF := hs.wfB c hc
     have hwfF : (s.b (.not (s.b c))).WF := hs.wfB _ (by simpa only [B.WF] using hwfT)
@@ -78,32 +82,35 @@ theorem step_sound (hs : SimpSound s) (hI : I.Std) (hR : R I env code p st f) (h
           exact ((addCond_sat hs hwfT).1 hsat').2
         obtain ⟨f1, f2, hr1, hR1, hr2, hR2⟩ := htrue hct hv
         rcases hpc with rfl | rfl
-        · exact ⟨f1, hr1, R_addCond hs hwfT hR1 rfl rfl rfl rfl⟩
-        · exact ⟨f2, hr2, R_addCond hs hwfT hR2 rfl rfl rfl rfl⟩
+        · exact ⟨f1, hr1, R_addCond hs hwfT hR1 rfl rfl rfl rfl rfl⟩
+        · exact ⟨f2, hr2, R_addCond hs hwfT hR2 rfl rfl rfl rfl rfl⟩
       · have hcf : c.eval I = false := by
           have := ((addCond_sat hs hwfF).1 hsat').2
           rw [condFalse_eval hs hc] at this
           simpa using this
         obtain ⟨f1, hr1, hR1⟩ := hfalse hcf
-        exact ⟨f1, hr1, R_addCond hs hwfF hR1 rfl rfl rfl rfl⟩
+        exact ⟨f1, hr1, R_addCond hs hwfF hR1 rfl rfl rfl rfl rfl⟩
     · intro e' hm hn
       rw [(jumpi_ends hm).1] at hn; cases hn
 
 /-- an end state covers the concrete outcome `h` for the valuation `I`: its path is satisfied and it either reports
-    exactly `h` (untagged), or it is an error report (stuck), or it is the tagged invalid-destination halt -/
+    exactly `h` — kind and returned bytes — untagged, or it is an error report (stuck), or it is tagged (the
+    invalid-destination halt of `jumpi`; an OutOfGas raised by a memory-limit check) -/
 def EndCovers (I : Interp) (h : Evm.Halt) (e : EndState) : Prop :=
-  Sat I e.st.path ∧ ((e.out = .halt h ∧ e.tag = .normal) ∨ (∃ r, e.out = .stuck r) ∨ e.tag ≠ .normal)
+  Sat I e.st.path ∧
+    ((∃ h0, e.out = .halt h0 ∧ haltWith h0 (e.data.map (·.eval I)) = h ∧ e.tag = .normal) ∨
+     (∃ r, e.out = .stuck r) ∨ e.tag ≠ .normal)
 
 /-- **step_complete.** -/
 theorem step_complete (hs : SimpSound s) (ho : OracleSound o) (hI : I.Std) (hR : R I env code p st f)
-    (hl : f.stack.length ≤ 1024) (hsat : Sat I st.path) {w' : Evm.World} {h : Evm.Halt}
-    (hh : Halts p w f (w', h)) :
+    (hl : f.stack.length ≤ 1024) (hmem : cfg.maxMem + 32 ≤ p.memLimit) (hsat : Sat I st.path) {w' : Evm.World}
+    {h : Evm.Halt} (hh : Halts p w f (w', h)) :
     (∃ st' ∈ (step s o cfg env code st).next, Sat I st'.path ∧
         ∃ f', R I env code p st' f' ∧ Halts p w f' (w', h)) ∨
     (∃ e ∈ (step s o cfg env code st).ends, EndCovers I h e) ∨
     (step s o cfg env code st).bounded ≠ [] := by
-  rcases step_corr (w := w) (o := o) (cfg := cfg) hs hI hR hsat hl with
-    ⟨st1, f1, e, hsat1, _, hreach, hR1⟩ | ⟨st0, h0, e, hp, hstep⟩ | ⟨st0, r, e, hp⟩ |
+  rcases step_corr (w := w) (o := o) (cfg := cfg) hs hI hR hsat hl hmem with
+    ⟨st1, f1, e, hsat1, _, hreach, hR1⟩ | ⟨st0, h0, data, e, hp, hstep⟩ | ⟨e0, e, hp, hnc⟩ |
     ⟨st0, target, c, e, hc, hp, _, htrue, hbad, hfalse⟩
   · left
     rw [e]
@@ -112,12 +119,14 @@ theorem step_complete (hs : SimpSound s) (ho : OracleSound o) (hI : I.Std) (hR :
     have := (halts_halt hstep).1 hh
     cases this
     rw [e]
-    exact ⟨⟨st0, .halt h, .normal⟩, by simp [haltOut], by show Sat I st0.path; rw [hp]; exact hsat,
-      Or.inl ⟨rfl, rfl⟩⟩
+    exact ⟨⟨st0, .halt h0, .normal, data⟩, by simp [haltOut], by show Sat I st0.path; rw [hp]; exact hsat,
+      Or.inl ⟨h0, rfl, rfl, rfl⟩⟩
   · right; left
     rw [e]
-    exact ⟨⟨st0, .stuck r, .normal⟩, by simp [stuckOut], by show Sat I st0.path; rw [hp]; exact hsat,
-      Or.inr (Or.inl ⟨r, rfl⟩)⟩
+    refine ⟨e0, by simp, by rw [hp]; exact hsat, ?_⟩
+    rcases hnc with hr | ht
+    · exact Or.inr (Or.inl hr)
+    · exact Or.inr (Or.inr ht)
   · rw [e]
     have hsat0 : Sat I st0.path := by rw [hp]; exact hsat
     have hwfT : (s.b c).WF := hs.wfB c hc
@@ -137,7 +146,7 @@ theorem step_complete (hs : SimpSound s) (ho : OracleSound o) (hI : I.Std) (hR :
         ⟨st', hm, vis', rfl⟩ | hb | ⟨e', hm, hte⟩
       · left
         obtain ⟨f1, hr1, hR1⟩ := hfalse hcv
-        refine ⟨_, hm, ?_, f1, R_addCond hs hwfF hR1 rfl rfl rfl rfl, (halts_reach hr1).1 hh⟩
+        refine ⟨_, hm, ?_, f1, R_addCond hs hwfF hR1 rfl rfl rfl rfl rfl, (halts_reach hr1).1 hh⟩
         exact (addCond_sat hs hwfF).2 ⟨hsat0, by rw [condFalse_eval hs hc, hcv]; rfl⟩
       · right; right; rw [hb]; simp
       · right; left; exact ⟨e', hm, htag e' hm hte⟩
@@ -154,8 +163,8 @@ theorem step_complete (hs : SimpSound s) (ho : OracleSound o) (hI : I.Std) (hR :
         have hsat' : Sat I (addCond s { st0 with pc := pc', visits := vis' } (s.b c)).path :=
           (addCond_sat hs hwfT).2 ⟨hsat0, by rw [condTrue_eval hs hc, hcv]⟩
         rcases hpc with rfl | rfl
-        · exact ⟨_, hm, hsat', f1, R_addCond hs hwfT hR1 rfl rfl rfl rfl, (halts_reach hr1).1 hh⟩
-        · exact ⟨_, hm, hsat', f2, R_addCond hs hwfT hR2 rfl rfl rfl rfl, (halts_reach hr2).1 hh⟩
+        · exact ⟨_, hm, hsat', f1, R_addCond hs hwfT hR1 rfl rfl rfl rfl rfl, (halts_reach hr1).1 hh⟩
+        · exact ⟨_, hm, hsat', f2, R_addCond hs hwfT hR2 rfl rfl rfl rfl rfl, (halts_reach hr2).1 hh⟩
       · right; right; rw [hb]; simp
       · right; left; exact ⟨e', hm, htag e' hm hte⟩
 
